@@ -945,8 +945,11 @@ Definition es6_import_block (o : orders) (f : sfile) : js_err + bstr :=
       match j_called st with
       | [] => inr []
       | called =>
-          (* difference(funcsCalled, funcsInFile) ranges over funcsCalled *)
-          let names := filter (fun k => negb (mem_s k (j_infile st))) (o_imports o (map fst called)) in
+          (* difference(funcsCalled, funcsInFile): the keys of funcsCalled that are not
+             templates of the file, collected in map order (and, since 3edbe48, sorted).
+             The key order is applied to the collected keys: every order in which a
+             range over funcsCalled can deliver them is some order of that list. *)
+          let names := o_imports o (filter (fun k => negb (mem_s k (j_infile st))) (map fst called)) in
           inr (flat_map (fun k => match assoc_s k called with Some line => line ++ [10] | None => [] end) names ++ [10])
       end
   end.
